@@ -75,6 +75,8 @@ def _case(rng, fam, gseed, cfgd):
         case["fmt"] = str(rng.choice(["dia", "diaj", "bsr", "lil", "dok"]))
         if rng.random() < 0.3 and fam in ("QP", "NLP"):
             case["gopts"] = dict(case.get("gopts", {}), row_force=["eq"] * 12)
+    if fam in ("QP", "NLP") and "gopts" not in case and rng.random() < 0.1:
+        case["gopts"] = {"row_force": ["free"]}   # a row without any bound
     return case
 
 
